@@ -140,8 +140,32 @@ def gen_case(rng, stream):
         out += (lead + h + mid + ":" + sp + b + "\n").encode("latin-1")
     if stream == "unterminated":
         out = out[:-1]
-    return {"stream": stream, "mode": mode, "recs": recs, "input": bytes(out),
+    case = {"stream": stream, "mode": mode, "recs": recs, "input": bytes(out),
             "hash_seed": rng.choice([0, 1, 2, 7, 12345, rng.randrange(1 << 30)])}
+    if rng.random() < 0.12:
+        split_into_files(case, [rng.randrange(0, 1000) for _ in range(3)], rng.random() < 0.7, rng.random() < 0.2)
+    return case
+
+
+def split_into_files(case, cuts, unterminate, empty_file):
+    """`dshbak out1 out2 ...`: the same lines given as two to four FILE ARGUMENTS; an earlier file may end without its
+    newline (pdsh writes the unterminated tail of remote output like that) — a line is a line all the same"""
+    lines = case["input"].split(b"\n")
+    tail = lines.pop()
+    lines = [l + b"\n" for l in lines] + ([tail] if tail else [])
+    if len(lines) < 2:
+        return
+    at = sorted({1 + c % (len(lines) - 1) for c in cuts})
+    files, prev = [], 0
+    for a in at + [len(lines)]:
+        files.append(b"".join(lines[prev:a]))
+        prev = a
+    if unterminate:
+        files = [f[:-1] if (i < len(files) - 1 and i % 2 == 0 and f.endswith(b"\n") and not f.endswith(b"\n\n") and f != b"\n") else f
+                 for i, f in enumerate(files)]
+    if empty_file:
+        files.insert(1, b"")
+    case["files"] = files
 
 
 def subset_cases(universe, body="x"):
@@ -232,6 +256,29 @@ def pinned_cases():
     add("format:unterminated-last", {"n1": ["x", "y"], "n2": ["x", "y"], "n3": ["x", "tail"]}, unterminated=True)
     add("format:unterminated-only-line", {"n1": ["x"]}, unterminated=True)
     add("format:one-host-one-line", {"n1": ["x"]})
+    # the input as FILE ARGUMENTS: every cut of a small input into 2 and 3 files, the earlier files with and without
+    # their final newline; an empty file among them; a single file argument
+    recs = [("n1", "a"), ("n2", "a"), ("n1", "b"), ("n2", "b"), ("n3", "z")]
+    lines = [("%s: %s\n" % r).encode() for r in recs]
+    cuts = [[i] for i in range(1, len(lines))] + [[1, 3], [2, 4], [2, 3]]
+    for cut in cuts:
+        for unterm in (True, False):
+            files, prev = [], 0
+            for a in cut + [len(lines)]:
+                files.append(b"".join(lines[prev:a]))
+                prev = a
+            if unterm:
+                files = [f[:-1] if i < len(files) - 1 else f for i, f in enumerate(files)]
+            for m in "cnd":
+                out.append({"stream": "plain", "mode": m, "recs": recs, "input": b"".join(lines), "hash_seed": 0,
+                            "files": files, "pin": "files:cut%s:%s" % ("-".join(map(str, cut)), "unterminated" if unterm else "terminated")})
+    for m in "cnd":
+        out.append({"stream": "plain", "mode": m, "recs": recs, "input": b"".join(lines), "hash_seed": 0,
+                    "files": [b"".join(lines[:2])[:-1], b"", b"".join(lines[2:])], "pin": "files:empty-file-between"})
+        out.append({"stream": "plain", "mode": m, "recs": recs, "input": b"".join(lines), "hash_seed": 0,
+                    "files": [b"".join(lines)], "pin": "files:single"})
+        out.append({"stream": "unterminated", "mode": m, "recs": recs, "input": b"".join(lines)[:-1], "hash_seed": 0,
+                    "files": [b"".join(lines[:3])[:-1], b"".join(lines[3:])[:-1]], "pin": "files:all-unterminated"})
     return out
 
 
@@ -262,11 +309,13 @@ def option_cases(ctx, script, judge, cov, dist):
             elif tgt and state == "notdir":
                 open(tgt, "w").close()
 
-    def observe(cd, argv, data, dname):
+    def observe(cd, argv, data, dname, attempt=0):
         try:
             p = subprocess.run(["perl", script] + argv, input=data, stdout=subprocess.PIPE, stderr=subprocess.PIPE, env=env,
-                               cwd=cd, timeout=60)
+                               cwd=cd, timeout=120)
         except subprocess.TimeoutExpired:
+            if attempt == 0:
+                return observe(cd, argv, data, dname, attempt=1)
             return {"rc": "timeout", "plan": "timeout", "files": {}, "err": "", "out": ""}
         err = p.stderr.decode("latin-1")
         out = p.stdout.decode("latin-1")
@@ -412,7 +461,7 @@ def option_cases(ctx, script, judge, cov, dist):
 
 
 # ------------------------------------------------------------------ running the real things
-def run_dshbak(script, case, workdir, idx):
+def run_dshbak(script, case, workdir, idx, attempt=0):
     env = {"PATH": "/usr/bin:/bin", "PERL_HASH_SEED": str(case["hash_seed"]), "PERL_PERTURB_KEYS": "0"}
     cmd = ["perl", script]
     ddir = None
@@ -424,9 +473,19 @@ def run_dshbak(script, case, workdir, idx):
         for f in os.listdir(ddir):
             os.unlink(os.path.join(ddir, f))
         cmd += ["-d", ddir]
+    data = case["input"]
+    if case.get("files") is not None:
+        data = b""
+        for k, fb in enumerate(case["files"]):
+            fp = os.path.join(workdir, "in%d_%d" % (idx, k))
+            with open(fp, "wb") as fh:
+                fh.write(fb)
+            cmd.append(fp)
     try:
-        p = subprocess.run(cmd, input=case["input"], stdout=subprocess.PIPE, stderr=subprocess.PIPE, env=env, timeout=60)
+        p = subprocess.run(cmd, input=data, stdout=subprocess.PIPE, stderr=subprocess.PIPE, env=env, timeout=120)
     except subprocess.TimeoutExpired:
+        if attempt == 0:            # a timeout alone (a loaded machine) is tried once more before it is reported
+            return run_dshbak(script, case, workdir, idx, attempt=1)
         return {"rc": "timeout", "blocks": [], "err": ""}
     res = {"rc": p.returncode, "err": p.stderr.decode("latin-1")[-300:], "blocks": []}
     if case["mode"] == "d":
@@ -464,12 +523,14 @@ def parse_report(text):
     return blocks, perr
 
 
-def run_pdsh_Q(pdsh, header):
+def run_pdsh_Q(pdsh, header, attempt=0):
     """hosts the real pdsh expands HEADER to, or ('refused', message)"""
     try:
         p = subprocess.run([pdsh, "-Q", "-w", header], stdout=subprocess.PIPE, stderr=subprocess.PIPE,
-                           env={"PATH": "/usr/bin:/bin"}, timeout=60)
+                           env={"PATH": "/usr/bin:/bin"}, timeout=120)
     except subprocess.TimeoutExpired:
+        if attempt == 0:
+            return run_pdsh_Q(pdsh, header, attempt=1)
         return ("refused", "timeout")
     if p.returncode != 0:
         return ("refused", p.stderr.decode("latin-1")[-200:].strip())
@@ -540,7 +601,8 @@ def hxl(l):
 
 
 def model_line(case, repaired, lim="0"):
-    return "%s %d %s %s\n" % ("c" if case["mode"] == "c" else "n", int(repaired), lim, hexs(case["input"]))
+    hexin = hexs(case["input"]) if case.get("files") is None else "+".join((hexs(f) if f else "-") for f in case["files"])
+    return "%s %d %s %s\n" % ("c" if case["mode"] == "c" else "n", int(repaired), lim, hexin)
 
 
 def parse_model(line, mode):
@@ -768,6 +830,7 @@ BRANCHES = [
     # process_lines regex
     "line:ignored(no tag)", "line:blanks-before-tag", "line:blanks-before-colon", "line:no-blank-after-colon",
     "line:empty-body", "line:body-with-colon", "line:last-without-newline",
+    "input:file-arguments", "input:earlier-file-unterminated", "input:empty-file-argument",
     # output functions
     "mode:report", "mode:-c", "mode:-d", "-c:hosts-merged", "-c:singleton-header", "-c:several-blocks",
     # compress / compress_inner / comp
@@ -785,6 +848,12 @@ def branches_of(c, r):
     if lines and lines[-1] != "":
         b.add("line:last-without-newline")
     tags = {t for t, _ in c["recs"]}
+    if c.get("files") is not None:
+        b.add("input:file-arguments")
+        if any(f and not f.endswith(b"\n") for f in c["files"][:-1]):
+            b.add("input:earlier-file-unterminated")
+        if any(not f for f in c["files"]):
+            b.add("input:empty-file-argument")
     for l in lines:
         if l == "" and l is lines[-1]:
             continue
@@ -886,11 +955,19 @@ def nontrivial(c, r):
 
 
 def case_json(c):
-    return {"stream": c["stream"], "mode": c["mode"], "hash_seed": c["hash_seed"],
-            "input_hex": c["input"].hex(), "input_text": c["input"].decode("latin-1"),
-            "records": [[t, b] for t, b in c["recs"]],
-            "cmd": "PERL_HASH_SEED=%d perl scripts/dshbak%s < input" %
-                   (c["hash_seed"], {"c": " -c", "d": " -d DIR", "n": ""}[c["mode"]])}
+    j = {"stream": c["stream"], "mode": c["mode"], "hash_seed": c["hash_seed"],
+         "input_hex": c["input"].hex(), "input_text": c["input"].decode("latin-1"),
+         "records": [[t, b] for t, b in c["recs"]],
+         "cmd": "PERL_HASH_SEED=%d perl scripts/dshbak%s < input" %
+                (c["hash_seed"], {"c": " -c", "d": " -d DIR", "n": ""}[c["mode"]])}
+    if c.get("files") is not None:
+        j["files_hex"] = [f.hex() for f in c["files"]]
+        j["files_text"] = [f.decode("latin-1") for f in c["files"]]
+        j["cmd"] = "PERL_HASH_SEED=%d perl scripts/dshbak%s FILE1 FILE2 ...   (the files of files_text, in order)" % \
+            (c["hash_seed"], {"c": " -c", "d": " -d DIR", "n": ""}[c["mode"]])
+    if c.get("pin"):
+        j["pin"] = c["pin"]
+    return j
 
 
 def case_from_json(j):
@@ -902,8 +979,11 @@ def case_from_json(j):
         n = int(j["hosts"])
         return {"stream": "plain", "mode": "c", "hash_seed": 3, "recs": [("n%d" % i, "x") for i in range(1, n + 1)],
                 "input": "".join("n%d: x\n" % i for i in range(1, n + 1)).encode()}
-    return {"stream": j["stream"], "mode": j["mode"], "hash_seed": j["hash_seed"],
-            "input": bytes.fromhex(j["input_hex"]), "recs": [(t, b) for t, b in j["records"]]}
+    c = {"stream": j["stream"], "mode": j["mode"], "hash_seed": j["hash_seed"],
+         "input": bytes.fromhex(j["input_hex"]), "recs": [(t, b) for t, b in j["records"]]}
+    if "files_hex" in j:
+        c["files"] = [bytes.fromhex(x) for x in j["files_hex"]]
+    return c
 
 
 def shrink(judge, c, sig, budget=40):
@@ -917,6 +997,8 @@ def shrink(judge, c, sig, budget=40):
         if unterminated:
             inp = inp[:-1]
         return dict(c, recs=recs, input=inp)
+    if c.get("files") is not None:
+        return c            # (file arguments: the cut points are part of the case)
     cur = rebuild(c["recs"], c["stream"] == "unterminated")
     if not bad(cur):
         return c
